@@ -350,6 +350,9 @@ func (rn *Runner) roundCase(d *Doc, env *Env, a float64, nt bool) {
 	rn.scalar(d, env, Path{}, call("round", v("a")), "floor-ceiling-round", "round", nt)
 }
 
+var nearTies = []float64{0.49999999999999994, -0.49999999999999994, 1.4999999999999998, 2.4999999999999996, 1.5000000000000002, 0.5000000000000001,
+	-0.5000000000000001, -1.5000000000000002, 3.4999999999999996, 4503599627370497, 4503599627370495.5}
+
 func famC07(rn *Runner) {
 	d := rn.genDoc(40)
 	g := NewExprGen(rn.R.Fork(), d, stdEnv())
@@ -360,6 +363,13 @@ func famC07(rn *Runner) {
 		if rn.R.Chance(2, 3) {
 			p = float64(rn.R.Intn(9)-2) + pick(rn.R, []float64{0, 0, 0.5, 0.49, -0.5, 0.51})
 			l = float64(rn.R.Intn(8)-1) + pick(rn.R, []float64{0, 0, 0.5, 0.49, 1.5})
+			// the doubles next to a tie: adding 0.5 to them rounds, so floor(x+0.5) is not round(x)
+			switch rn.R.Intn(8) {
+			case 0:
+				p = pick(rn.R, nearTies)
+			case 1:
+				l = pick(rn.R, nearTies)
+			}
 		}
 		env := &Env{Vars: []VarBind{strVar("s", s), strVar("t", t), strVar("u", u), numVar("p", p), numVar("l", l)}}
 		nt := !isASCII(s+t+u) || p != math.Trunc(p) || l != math.Trunc(l)
